@@ -89,6 +89,9 @@ impl<T: std::cmp::PartialEq + std::fmt::Display + std::fmt::Debug> Element<T> {
 
     /// add a new child element to this element, if it does not exist yet
     pub fn add_unique_child(&mut self, mut child: Element<T>) {
+        if self.get_child(&child.name).is_some() {
+            return;
+        }
         if child.position.is_none() {
             child.position = Some(self.children.len());
         }
